@@ -13,6 +13,18 @@ checklib/C13.py (`TRUSTED_BASE`) and sampled by the campaign.
   macro expansion (preprocess.c)      Model/PP                      `bound defs ts` (object-like)  C09_terminates_partial
   driver process (main.c)             Model/DriverProc              small-step, proved to end      C14_terminates
   #include machine (preprocess.c)     Model/IncludeDepth            budget-free total function     C10_include_terminates_main
+                                                                                                     (= item "include_total": C13_include_no_hang)
+  collected later (same rule: corollaries, never weaker hypotheses; every Gen module below is in C13's GEN_MODULES):
+  #if token line -> tree (parse.c     Model/IfParse +               length + 1, proved sufficient  C10_ifparse_total
+    conditional() .. primary())         Gen/C10IfParseGen                                            -> C13_ifparse_nocrash, C13_ifline_nocrash
+  parse_args (main.c)                 Model/C14Args + Gen/C14ArgsGen structural over argv           C14_args_total -> C13_args_nocrash
+  join_adjacent_string_literals,      Gen/StrJoinGen (translated)   structural over the run        C11_join_bytes -> C13_join_in_bounds
+    second pass (preprocess.c)
+  canonicalize_newline, remove_       Gen/LitReadersGen (translated, length + 1, proved sufficient  C11_translated_phases -> C13_phases_in_bounds
+    backslash_newline, convert_         array threaded through
+    universal_chars (tokenize.c)        every store)
+  rehash (hashmap.c)                  Model/HashMap                 probe loops: capacity          C17_rehash_spec -> C13_rehash_nocrash
+  NOT collected: C03_function_correct_partial (about the generated code's run, not a no-crash fact about the compiler).
 -/
 import ChibiVerif.Props.C17
 import ChibiVerif.Props.C07
@@ -20,6 +32,11 @@ import ChibiVerif.Props.C19
 import ChibiVerif.Props.C09
 import ChibiVerif.Props.C14
 import ChibiVerif.Props.C10
+import ChibiVerif.Props.C10IfParse
+import ChibiVerif.Props.C14Args
+import ChibiVerif.Props.C11
+import ChibiVerif.Props.C11Join
+import ChibiVerif.Lemmas.C13Collect
 
 namespace ChibiVerif.Props.C13
 
@@ -83,5 +100,151 @@ theorem C13_include_no_hang (xp : ChibiVerif.IncludeDepth.Xp ChibiVerif.PPExpr.B
 example : ∀ (d : ChibiVerif.CondIncl.Defs ChibiVerif.PPExpr.Body) (f : String) (ts : List ChibiVerif.IncludeOperand.OTok),
     (fun _ _ ts => Except.ok ts : ChibiVerif.IncludeDepth.Xp ChibiVerif.PPExpr.Body) d f ts ≠ .error .outOfFuel := by
   intro d f ts h; cases h
+
+-- ------------------------------------------------------------------ collected from the siblings' later results
+
+section IfParse
+open ChibiVerif.IfParse ChibiVerif.PPExpr ChibiVerif.CondIncl
+
+/-- **The `#if` parser never crashes or hangs**: for every token list `ifParse` (const_expr of parse.c with the "extra token"
+    test of eval_const_expr, run on `length + 1` unfoldings) never ends "out of fuel", and every failure is one of the located
+    diagnostics of the C code ("expected an expression", "expected ')'", "expected ':'", "extra token", the division by zero
+    found first) or the marker of a token outside the modelled fragment, at a token index inside the line or at its end. -/
+theorem C13_ifparse_nocrash (ts : List PTok) :
+    ifParse ts ≠ .error .fuel ∧
+    (∀ e, ifParse ts = .error e → ∃ i, i ≤ ts.length ∧
+        (e = .expectedExpr i ∨ e = .expected ")" i ∨ e = .expected ":" i ∨ e = .extraToken i ∨ e = .divZeroFirst i ∨
+         e = .unmodelled i)) := by
+  have key : ∀ e, ifParse ts = .error e → ∃ i, i ≤ ts.length ∧
+        (e = .expectedExpr i ∨ e = .expected ")" i ∨ e = .expected ":" i ∨ e = .extraToken i ∨ e = .divZeroFirst i ∨
+         e = .unmodelled i) := by
+    intro e he
+    have h := (ChibiVerif.Props.C10.C10_ifparse_total ts).2
+    rw [he] at h
+    exact h
+  refine ⟨fun he => ?_, key⟩
+  obtain ⟨i, _, h⟩ := key _ he
+  rcases h with h | h | h | h | h | h <;> cases h
+
+/-- the outcomes the theorem speaks about occur: a tree, and a diagnostic at the end of the line -/
+example : ifParse [.num 1 false, .punct "+", .num 2 false] = .ok (.bin .add (.num 1 false) (.num 2 false)) ∧
+    ifParse [.num 1 false, .punct "+"] = .error (.expectedExpr 2) ∧
+    ifParse [.punct "(", .num 1 false] = .error (.expected ")" 2) := by decide
+
+/-- **A whole `#if` / `#elif` line never exhausts the parser's bound**: `defined` handling, ANY macro expander, identifiers → 0,
+    ANY token conversion, then the parse — for every line the outcome of eval_const_expr's model up to the tree is a tree or a
+    diagnostic (the expander's own diagnostics included as `.expand`), never the model-internal "out of fuel". -/
+theorem C13_ifline_nocrash (isDef : String → Bool) (xp : List Tok → Except Diag (List Tok))
+    (cv : Tok → Option PTok) (line : List Tok) :
+    ifTree isDef xp cv line ≠ .error .fuel := by
+  unfold ifTree
+  split
+  · intro h; cases h
+  · split
+    · intro h; cases h
+    · unfold afterExpand
+      split
+      · intro h; cases h
+      · split
+        · next e he =>
+          intro h
+          obtain ⟨j, hj⟩ := ChibiVerif.Lemmas.C13Collect.convAll_error cv _ 0 e he
+          injection h with h
+          rw [hj] at h; cases h
+        · exact (C13_ifparse_nocrash _).1
+
+end IfParse
+
+section Args
+open ChibiVerif.C14Args ChibiVerif.C14Compose
+
+/-- **`parse_args` never dereferences NULL**: for every list of argument words (options missing their argument at the end
+    included) the outcome of main.c's argument parser, over the tables regenerated from main.c, is return / `usage()` /
+    `exit(0)` / `error()` — never a read through the NULL that terminates argv, and a returned state holds no NULL where a
+    string is expected. -/
+theorem C13_args_nocrash (args : List String) :
+    (∀ site, parseArgs args ≠ .nullDeref site) ∧ (∀ st, parseArgs args = .ok st → st.noNull) :=
+  ChibiVerif.Props.C14.C14_args_total args
+
+/-- the words that crashed before f14f730 / 3aee6b1 are answered by `usage(1)` -/
+example : parseArgs ["x.c", "-D"] = .usage 1 ∧ parseArgs ["x.c", "-MQ"] = .usage 1 ∧
+    (match parseArgs ["-c", "x.c", "-o", "x.o"] with | .ok st => st.str "opt_o" | _ => none) = some "x.o" := by decide
+
+end Args
+
+section Join
+open ChibiVerif.Gen.Literals ChibiVerif.Gen.StrJoin ChibiVerif.StrJoin ChibiVerif.Literals
+
+/-- **No `memcpy` of `join_adjacent_string_literals` leaves its allocation** (second pass as translated from preprocess.c:
+    `calloc(base->size, len)`, then `memcpy(buf + i, t->str, t->ty->size)` per token): for every run of string-literal tokens of
+    one element size whose `str` holds their units and a terminator, the pass returns — no outcome `store_outside` (a copy outside
+    the destination or a read past the source), `unreachable` or any other failure — and the buffer it returns has exactly
+    the size of the array type it is given. -/
+theorem C13_join_in_bounds (sz : Nat) (a : Tok) (as : List Tok) (h : StrTok) (hs : List StrTok)
+    (hr : AllPairs Rep (a :: as) (h :: hs)) (hsz : ∀ x ∈ h :: hs, x.elem.size = sz) :
+    (∀ e, joinPass2 a as ≠ .error e) ∧ ∃ r, joinPass2 a as = .ok r ∧ (r.str.length : Int) = r.tySize := by
+  obtain ⟨r, hok, _, _, _, _, hlen⟩ := ChibiVerif.Props.C11.C11_join_bytes sz a as h hs hr hsz
+  refine ⟨fun e he => ?_, r, hok, hlen⟩
+  rw [hok] at he; cases he
+
+/-- non-vacuity: `u"a€"` `u"b"` satisfy the hypotheses (the pair of C11_join_bytes' example) -/
+example : AllPairs Rep [readerTok [] .ty_ushort [0x61, 0x20AC], readerTok [] .ty_ushort [0x62]]
+      [⟨.ty_ushort, [0x61, 0x20AC], 0, []⟩, ⟨.ty_ushort, [0x62], 0, []⟩] ∧
+    (∀ x ∈ ([⟨.ty_ushort, [0x61, 0x20AC], 0, []⟩, ⟨.ty_ushort, [0x62], 0, []⟩] : List StrTok), x.elem.size = 2) :=
+  ⟨.cons ⟨rfl, rfl, rfl, rfl⟩ (.cons ⟨rfl, rfl, rfl, rfl⟩ .nil), by decide⟩
+
+end Join
+
+section Phases
+open ChibiVerif.Text ChibiVerif.Literals
+
+/-- **No store of the three in-place phase loops leaves the text** (`canonicalize_newline`, `remove_backslash_newline`,
+    `convert_universal_chars` as translated from tokenize.c with the array threaded through every store; `none` = a store
+    outside the text or a terminator written behind it): for every NUL-free text (ending in a newline for
+    `convert_universal_chars`, as `read_file` guarantees) each loop returns, and so do the three in the order `tokenize_file`
+    calls them on any file content. -/
+theorem C13_phases_in_bounds :
+    (∀ t : List Byte, (0#8 : Byte) ∉ t → ChibiVerif.Gen.LitReaders.canonicalizeNewline t ≠ none) ∧
+    (∀ t : List Byte, (0#8 : Byte) ∉ t → ChibiVerif.Gen.LitReaders.removeBackslashNewline t ≠ none) ∧
+    (∀ t : List Byte, (0#8 : Byte) ∉ t → (t = [] ∨ t.getLast? = some LF) →
+      ChibiVerif.Gen.LitReaders.convertUniversalChars t ≠ none) ∧
+    (∀ s : List Byte, (0#8 : Byte) ∉ s →
+      (ChibiVerif.Gen.LitReaders.canonicalizeNewline (skipBOM (ensureFinalNewline s)) >>=
+        ChibiVerif.Gen.LitReaders.removeBackslashNewline >>=
+        ChibiVerif.Gen.LitReaders.convertUniversalChars) ≠ none) := by
+  obtain ⟨h1, h2, h3, h4⟩ := ChibiVerif.Props.C11.C11_translated_phases
+  refine ⟨fun t ht e => ?_, fun t ht e => ?_, fun t ht hl e => ?_, fun s hs e => ?_⟩
+  · rw [h1 t ht] at e; cases e
+  · rw [h2 t ht] at e; cases e
+  · rw [h3 t ht hl] at e; cases e
+  · rw [h4 s hs] at e; cases e
+
+/-- non-vacuity: a NUL-free text with CR LF, a splice and a UCN; the stores really are bounds-checked: the same loop on a
+    text that has lost its last byte's room (`storeAt` past the end) is `none` -/
+example : (0#8 : Byte) ∉ ([0x5C#8, 0x75#8, 0x30#8, 0x30#8, 0x65#8, 0x39#8, 13#8, 10#8, 0x78#8, 0x5C#8, 10#8, 0x79#8, 10#8] : List Byte) ∧
+    ([0x5C#8, 0x75#8, 0x30#8, 0x30#8, 0x65#8, 0x39#8, 13#8, 10#8, 0x78#8, 0x5C#8, 10#8, 0x79#8, 10#8] : List Byte).getLast? = some LF ∧
+    ChibiVerif.Gen.LitReaders.storeAt [1#8, 2#8] 2 3#8 = none := by decide
+
+end Phases
+
+section Rehash
+open ChibiVerif.HashMap
+
+/-- **`rehash` reaches neither of its `assert`s nor `unreachable()`** for every hash function and every table satisfying the
+    representation invariant `WF` (the tables every history of put / delete produces: `C17_never_aborts`) — clusters wrapping
+    around the end of the bucket array included. -/
+theorem C13_rehash_nocrash {α β : Type} [DecidableEq α] (h : α → Nat) (m : HM α β) (w : WF h m) :
+    ∀ c : Crash, HM.rehash h m ≠ .error c := by
+  intro c e
+  obtain ⟨m2, hm2, _⟩ := ChibiVerif.Props.C17.C17_rehash_spec h m w
+  rw [hm2] at e; cases e
+
+/-- non-vacuity: the wrapped-cluster table of C17_rehash_spec's example satisfies `WF` -/
+example : WF (fun k : Nat => k)
+    (⟨[.full 15 3, .tomb, .tomb, .tomb, .tomb, .tomb, .tomb, .tomb, .tomb, .tomb,
+       .empty, .empty, .empty, .empty, .tomb, .full 30 2], 12⟩ : HM Nat Nat) := by
+  decide
+
+end Rehash
 
 end ChibiVerif.Props.C13
